@@ -194,6 +194,17 @@ K2 = jnp.asarray(np.diff(np.eye(4), 2, axis=0).T @ np.diff(np.eye(4), 2, axis=0)
 def model_family(name, per_obs=True, flags="exclusive"):
     """Returns (model, recipe) where recipe: values -> list of leaves
     [{'name', 'v', 'has_var', 'observed', 'parameter'}], and the names of settable params."""
+    if name == "name_collision":
+        # a settable node and a (weak) variable share the name "x": a position key "x" means the node
+        raw = lsl.Data(jnp.asarray([1.0, 2.0, 4.0], jnp.float32), _name="x")
+        xc = lsl.Var(lsl.Calc(lambda r: r - jnp.mean(r), raw), name="x")
+        mu = lsl.param(jnp.float32(0.3), lsl.Dist(tfd.Normal, loc=0.0, scale=2.0), name="mu")
+        y = lsl.obs(jnp.asarray([0.1, 0.5, -0.2], jnp.float32),
+                    lsl.Dist(tfd.Normal, loc=lsl.Calc(lambda m, c: m + c, mu, xc), scale=1.0), name="y")
+        model = lsl.GraphBuilder().add(y).build_model()
+        draws = {"x": lambda r: jnp.asarray([r.uniform(-2, 2) for _ in range(3)], jnp.float32),
+                 "mu": lambda r: jnp.float32(r.uniform(-1, 1))}
+        return model, None, draws, {}
     if name == "linreg_flag":
         # a calculator with a literal Python `True` among its inputs
         beta = lsl.param(jnp.array([0.2, 0.7], jnp.float32), lsl.Dist(tfd.Normal, loc=0.0, scale=5.0), name="beta")
